@@ -285,8 +285,8 @@ fn blackbox(kind: &str, k: usize, out: &mut Out) {
         }
         return;
     }
-    if kind == "continue100" || kind == "expect100" || kind == "hints103" || kind == "processing102" {
-        let want1 = if kind == "hints103" { "default 103" } else if kind == "processing102" { "default 102" } else { "default 100" };
+    if kind == "continue100" || kind == "expect100" || kind == "hints103" || kind == "processing102" || kind == "burst103" || kind == "burst100" {
+        let want1 = if kind == "hints103" || kind == "burst103" { "default 103" } else if kind == "processing102" { "default 102" } else { "default 100" };
         let ok = seen.len() == 2 && seen[0].0 == want1 && seen[1].0 == "relay" && seen[1].1 == 20;
         if !ok {
             out.viol("bb-interim", &format!("{kind}: observed {:?} (expected the interim response, then the relayed 200 with 20 bytes)", seen));
